@@ -25,6 +25,7 @@ int      vf_e10_request(int cfg, int k, int indicate, int by_uuid);
 void     vf_e10_output(int cfg, uint8_t* out, size_t* out_size);
 void     vf_e10_input(int cfg, const uint8_t* in, size_t in_size, uint8_t* out, size_t* out_size);
 unsigned vf_e10_get_config(int cfg);
+unsigned vf_e10_configured(int cfg, int k);
 void     vf_e10_set_config(int cfg, unsigned v);
 void     vf_e10_set_values(const uint8_t* src);
 int      vf_e10_level_size(int cfg, int level);
@@ -38,7 +39,6 @@ void     vf_e10_set_outstanding(int cfg, unsigned long v);
 #define MAXL 4
 #define NONE (~0ul)
 static const unsigned VAL_H[NC]  = { 3, 6, 9, 12, 16, 19 };
-static const unsigned CCCD_H[NC] = { 4, 7, 10, 13, 17, 20 };
 static const int REQ_K[NREQ]   = { 0, 2, 3, 4, 1, 2, 4, 5 };
 static const int REQ_IND[NREQ] = { 0, 0, 0, 0, 1, 1, 1, 1 };
 static const int NLEVELS[3]      = { 1, 4, 2 };
@@ -55,19 +55,6 @@ static int char_of_handle(unsigned h)
 {
     for (int k = 0; k < NC; ++k) if (VAL_H[k] == h) return k;
     return -1;
-}
-
-static unsigned read_cccd(int k)
-{
-    uint8_t* pdu = vf_alloc(3); uint8_t* out = vf_alloc(23);
-    pdu[0] = 0x0a; pdu[1] = (uint8_t)CCCD_H[k]; pdu[2] = 0;
-    size_t os = 23;
-    vf_e10_input(cfg, pdu, 3, out, &os);
-    OBSERVE(os);
-    CHECK(os == 3 && out[0] == 0x0b, "reading a CCCD yields a Read Response with a two byte value");
-    if (!(os == 3 && out[0] == 0x0b)) return 0;
-    OBSERVE(out[1]);
-    return out[1] & 3u;
 }
 
 /* Handle Value Confirmation of len octets; returns the size of the response */
@@ -186,8 +173,10 @@ void harness(void)
         ASSUME(n_want <= np);
         uint8_t junk[23]; in_bytes(junk, 23);
         build_state(want, 0, o);                    /* the last indication has been confirmed */
+        /* the subscriptions as the application sees them (server::configured_for_notifications / _indications< UUID >; that this
+         * is what the client configured through the CCCD handles is the subject of C09 / C10) */
         unsigned sub[NC];
-        for (int k = 0; k < NC; ++k) sub[k] = read_cccd(k);
+        for (int k = 0; k < NC; ++k) { sub[k] = vf_e10_configured(cfg, k); OBSERVE(sub[k]); }
         int got[NC][2]; for (int k = 0; k < NC; ++k) got[k][0] = got[k][1] = 0;
         for (int s = 0; s < np; ++s) {
             int k; int kind = poll(&k);
